@@ -109,6 +109,9 @@ func c17Exec(c *c17Case) c17Outcome {
 			return cl.DialWithContext(ctx)
 		case "dialandsend":
 			return cl.DialAndSendWithContext(ctx, mk())
+		case "dialandsend-empty":
+			// a connectivity check / a batch that was filtered down to nothing
+			return cl.DialAndSendWithContext(ctx)
 		case "send":
 			if c.Warmup > 0 {
 				var batch []*mail.Msg
@@ -269,6 +272,11 @@ func c17Configs() []c17Case {
 			out = append(out, c17Case{Cfg: smtpCfg{TLS: "none"}, Caps: []string{"8BITMIME"}, StallStep: step, Call: "send", Warmup: w})
 		}
 	}
+	// DialAndSend without any message: dial dialogue and QUIT are bounded all the same
+	for _, st := range []string{"greet", "ehlo#1", "noop#1", "quit"} {
+		out = append(out, c17Case{Cfg: smtpCfg{TLS: "none"}, Caps: []string{"8BITMIME"}, StallStep: st, Call: "dialandsend-empty"})
+		out = append(out, c17Case{Cfg: smtpCfg{TLS: "mandatory"}, Caps: []string{"STARTTLS", "8BITMIME"}, StallStep: st, Call: "dialandsend-empty"})
+	}
 	// DialAndSend again after a DialAndSend that timed out (the server stays silent at the same step)
 	for _, st := range []string{"greet", "ehlo#1", "noop#1", "mail#1", "data#1", "eod#1", "quit"} {
 		out = append(out, c17Case{Cfg: smtpCfg{TLS: "none"}, Caps: []string{"8BITMIME"}, StallStep: st, Call: "dialandsend", Then: "dialandsend"})
@@ -310,7 +318,7 @@ func c17Configs() []c17Case {
 func c17Describe() {
 	rec := core.Rec("C17")
 	rec.Rule = "enumerated stall points: the reference server goes silent (connection held open) at {greeting, EHLO reply, STARTTLS reply, during the TLS handshake, second EHLO, the AUTH command, the first and second challenge of the exchange, NOOP, MAIL, first and second RCPT, DATA, inside the message content (server stops reading; bounded in-memory buffer so the writer blocks), end-of-data reply, the NOOP/RSET after delivery, QUIT} " +
-		"x TLS policy {none, mandatory} x auth {none, PLAIN, LOGIN, CRAM-MD5, SCRAM-SHA-256} x call {DialWithContext, DialAndSend, Send, Reset}, plus the same stall points on a connection obtained through the fallback port (primary dial refused), with WithoutNoop, with a caller context whose own deadline is 60 s away, and followed by a RETRY on the same Client (Send or Reset after the call that timed out at NOOP/MAIL/RCPT/DATA/end-of-data/RSET; the retry is bounded as well), x configured timeout (100 ms in quick; 100/200/400 ms in thorough). " +
+		"x TLS policy {none, mandatory} x auth {none, PLAIN, LOGIN, CRAM-MD5, SCRAM-SHA-256} x call {DialWithContext, DialAndSend (also with an empty batch), Send, Reset}, plus the same stall points on a connection obtained through the fallback port (primary dial refused), with WithoutNoop, with a caller context whose own deadline is 60 s away, and followed by a RETRY on the same Client (Send or Reset after the call that timed out at NOOP/MAIL/RCPT/DATA/end-of-data/RSET; the retry is bounded as well), x configured timeout (100 ms in quick; 100/200/400 ms in thorough). " +
 		"Also: a stall at the 31st / 61st message of one Send call on a plain connection, after 30 / 60 messages went through quickly, with a tight bound of 3 s (a deadline that grows with every successful operation). Oracle: the call returns a non-nil error within max(20 x timeout, 15 s); a miss is re-run twice in isolation and only reported if it repeats. Non-trivial: every case whose stall point is actually reached; distinct by (call, stall point, policy, auth, timeout)."
 	rec.Assumptions = []string{"real clocks: the bound is >= 20x the configured timeout and at least 15 s (closing a TLS connection to a peer that no longer reads may itself take 5 s in crypto/tls)", "in-memory transport through WithDialContextFunc (deadline support implemented by the harness connection)", "boundedness is shown only for the enumerated stall points"}
 }
